@@ -46,6 +46,7 @@ RULE = ("Enumerated part: files of 0, 1, 16384, 16385, 40000 bytes, the "
 RULE += (' Also: retry after an interrupted attempt (stale <name>.tmp), and a transit path that replays / duplicates a genuine record frame.')
 RULE += (' Texts and offered names include sequences that are not in Unicode NFC form.')
 RULE += (" Seeded runs also include a receiver whose free-space estimate is below / at / just above the announced size (refusal paths), and --verify on both sides with a sending user who confirms after some dithering or refuses.")
+RULE += (' Directory trees include the project/project shape (the only entry is a directory named like the tree).')
 RULE += (' File contents are random bytes in half of the runs and structured otherwise (all NUL, NUL tail or head of any length, short patterns such as CR LF / ^Z / 0xff repeated).')
 LEVEL_TEXT = ("Fault enumeration over cut/corruption points of fixed payloads "
               "plus seeded exploration. Oracle: receive() success => the tree "
@@ -163,6 +164,12 @@ def make_tree(tape, root):
     os.mkdir(root)
     n = tape.choose(7, "nent")
     dirs = [root]
+    if tape.choose(6, "nested_same") == 0:
+        # the project/project layout: the only entry of the tree is a
+        # directory called like the tree itself
+        inner = os.path.join(root, os.path.basename(root))
+        os.mkdir(inner)
+        dirs = [inner]
     for i in range(n):
         parent = tape.pick(dirs, "parent")
         k = tape.choose(4, "ekind")
